@@ -1,0 +1,187 @@
+//go:build verif
+
+package keeper
+
+// Machine-checked contracts of package keeper, read by /verif/govc (comment-only file, build tag verif).
+// Ghost state (module store, bank, effect log) is described in /verif/DESIGN.md section 3.
+
+// Keeper hook wrappers: without registered hooks nothing is called and nil is returned; otherwise the hooks are
+// called exactly once with the values received and their error is returned.
+//@ func (Keeper).BeforeFixedPriceAuctionCreated
+//@ ensures [C17] no-hooks-no-call: k.hooks == nil ==> result == nil && hookN("BeforeFixedPriceAuctionCreated") == old(hookN("BeforeFixedPriceAuctionCreated"))
+//@ ensures [C17] called-exactly-once: k.hooks != nil ==> hookN("BeforeFixedPriceAuctionCreated") == old(hookN("BeforeFixedPriceAuctionCreated")) + 1 && hookArgsAre("BeforeFixedPriceAuctionCreated", auctioneer, startPrice, sellingCoin, payingCoinDenom, vestingSchedules, startTime, endTime)
+//@ ensures [C17] veto-is-returned: k.hooks != nil ==> (result == nil) == HookOK
+//@ ensures [C17] time: k.hooks != nil ==> hookT("BeforeFixedPriceAuctionCreated") > old(Clock) && hookT("BeforeFixedPriceAuctionCreated") <= Clock
+//@ ensures Clock >= old(Clock) && (k.hooks == nil ==> HookOK == old(HookOK))
+//@ modifies HookN, HookT
+
+//@ func (Keeper).AfterFixedPriceAuctionCreated
+//@ ensures [C17] no-hooks-no-call: k.hooks == nil ==> result == nil && hookN("AfterFixedPriceAuctionCreated") == old(hookN("AfterFixedPriceAuctionCreated"))
+//@ ensures [C17] called-exactly-once: k.hooks != nil ==> hookN("AfterFixedPriceAuctionCreated") == old(hookN("AfterFixedPriceAuctionCreated")) + 1 && hookArgsAre("AfterFixedPriceAuctionCreated", auctionId, auctioneer, startPrice, sellingCoin, payingCoinDenom, vestingSchedules, startTime, endTime)
+//@ ensures [C17] veto-is-returned: k.hooks != nil ==> (result == nil) == HookOK
+//@ ensures [C17] time: k.hooks != nil ==> hookT("AfterFixedPriceAuctionCreated") > old(Clock) && hookT("AfterFixedPriceAuctionCreated") <= Clock
+//@ ensures Clock >= old(Clock) && (k.hooks == nil ==> HookOK == old(HookOK))
+//@ modifies HookN, HookT
+
+//@ func (Keeper).BeforeBatchAuctionCreated
+//@ ensures [C17] no-hooks-no-call: k.hooks == nil ==> result == nil && hookN("BeforeBatchAuctionCreated") == old(hookN("BeforeBatchAuctionCreated"))
+//@ ensures [C17] called-exactly-once: k.hooks != nil ==> hookN("BeforeBatchAuctionCreated") == old(hookN("BeforeBatchAuctionCreated")) + 1 && hookArgsAre("BeforeBatchAuctionCreated", auctioneer, startPrice, minBidPrice, sellingCoin, payingCoinDenom, vestingSchedules, maxExtendedRound, extendedRoundRate, startTime, endTime)
+//@ ensures [C17] veto-is-returned: k.hooks != nil ==> (result == nil) == HookOK
+//@ ensures [C17] time: k.hooks != nil ==> hookT("BeforeBatchAuctionCreated") > old(Clock) && hookT("BeforeBatchAuctionCreated") <= Clock
+//@ ensures Clock >= old(Clock) && (k.hooks == nil ==> HookOK == old(HookOK))
+//@ modifies HookN, HookT
+
+//@ func (Keeper).AfterBatchAuctionCreated
+//@ ensures [C17] no-hooks-no-call: k.hooks == nil ==> result == nil && hookN("AfterBatchAuctionCreated") == old(hookN("AfterBatchAuctionCreated"))
+//@ ensures [C17] called-exactly-once: k.hooks != nil ==> hookN("AfterBatchAuctionCreated") == old(hookN("AfterBatchAuctionCreated")) + 1 && hookArgsAre("AfterBatchAuctionCreated", auctionId, auctioneer, startPrice, minBidPrice, sellingCoin, payingCoinDenom, vestingSchedules, maxExtendedRound, extendedRoundRate, startTime, endTime)
+//@ ensures [C17] veto-is-returned: k.hooks != nil ==> (result == nil) == HookOK
+//@ ensures [C17] time: k.hooks != nil ==> hookT("AfterBatchAuctionCreated") > old(Clock) && hookT("AfterBatchAuctionCreated") <= Clock
+//@ ensures Clock >= old(Clock) && (k.hooks == nil ==> HookOK == old(HookOK))
+//@ modifies HookN, HookT
+
+//@ func (Keeper).BeforeAuctionCanceled
+//@ ensures [C17] no-hooks-no-call: k.hooks == nil ==> result == nil && hookN("BeforeAuctionCanceled") == old(hookN("BeforeAuctionCanceled"))
+//@ ensures [C17] called-exactly-once: k.hooks != nil ==> hookN("BeforeAuctionCanceled") == old(hookN("BeforeAuctionCanceled")) + 1 && hookArgsAre("BeforeAuctionCanceled", auctionId, auctioneer)
+//@ ensures [C17] veto-is-returned: k.hooks != nil ==> (result == nil) == HookOK
+//@ ensures [C17] time: k.hooks != nil ==> hookT("BeforeAuctionCanceled") > old(Clock) && hookT("BeforeAuctionCanceled") <= Clock
+//@ ensures Clock >= old(Clock) && (k.hooks == nil ==> HookOK == old(HookOK))
+//@ modifies HookN, HookT
+
+//@ func (Keeper).BeforeBidPlaced
+//@ ensures [C17] no-hooks-no-call: k.hooks == nil ==> result == nil && hookN("BeforeBidPlaced") == old(hookN("BeforeBidPlaced"))
+//@ ensures [C17] called-exactly-once: k.hooks != nil ==> hookN("BeforeBidPlaced") == old(hookN("BeforeBidPlaced")) + 1 && hookArgsAre("BeforeBidPlaced", auctionId, bidId, bidder, bidType, price, coin)
+//@ ensures [C17] veto-is-returned: k.hooks != nil ==> (result == nil) == HookOK
+//@ ensures [C17] time: k.hooks != nil ==> hookT("BeforeBidPlaced") > old(Clock) && hookT("BeforeBidPlaced") <= Clock
+//@ ensures Clock >= old(Clock) && (k.hooks == nil ==> HookOK == old(HookOK))
+//@ modifies HookN, HookT
+
+//@ func (Keeper).BeforeBidModified
+//@ ensures [C17] no-hooks-no-call: k.hooks == nil ==> result == nil && hookN("BeforeBidModified") == old(hookN("BeforeBidModified"))
+//@ ensures [C17] called-exactly-once: k.hooks != nil ==> hookN("BeforeBidModified") == old(hookN("BeforeBidModified")) + 1 && hookArgsAre("BeforeBidModified", auctionId, bidId, bidder, bidType, price, coin)
+//@ ensures [C17] veto-is-returned: k.hooks != nil ==> (result == nil) == HookOK
+//@ ensures [C17] time: k.hooks != nil ==> hookT("BeforeBidModified") > old(Clock) && hookT("BeforeBidModified") <= Clock
+//@ ensures Clock >= old(Clock) && (k.hooks == nil ==> HookOK == old(HookOK))
+//@ modifies HookN, HookT
+
+//@ func (Keeper).BeforeAllowedBiddersAdded
+//@ ensures [C17] no-hooks-no-call: k.hooks == nil ==> result == nil && hookN("BeforeAllowedBiddersAdded") == old(hookN("BeforeAllowedBiddersAdded"))
+//@ ensures [C17] called-exactly-once: k.hooks != nil ==> hookN("BeforeAllowedBiddersAdded") == old(hookN("BeforeAllowedBiddersAdded")) + 1 && hookArgsAre("BeforeAllowedBiddersAdded", allowedBidders)
+//@ ensures [C17] veto-is-returned: k.hooks != nil ==> (result == nil) == HookOK
+//@ ensures [C17] time: k.hooks != nil ==> hookT("BeforeAllowedBiddersAdded") > old(Clock) && hookT("BeforeAllowedBiddersAdded") <= Clock
+//@ ensures Clock >= old(Clock) && (k.hooks == nil ==> HookOK == old(HookOK))
+//@ modifies HookN, HookT
+
+//@ func (Keeper).BeforeAllowedBidderUpdated
+//@ ensures [C17] no-hooks-no-call: k.hooks == nil ==> result == nil && hookN("BeforeAllowedBidderUpdated") == old(hookN("BeforeAllowedBidderUpdated"))
+//@ ensures [C17] called-exactly-once: k.hooks != nil ==> hookN("BeforeAllowedBidderUpdated") == old(hookN("BeforeAllowedBidderUpdated")) + 1 && hookArgsAre("BeforeAllowedBidderUpdated", auctionId, bidder, maxBidAmount)
+//@ ensures [C17] veto-is-returned: k.hooks != nil ==> (result == nil) == HookOK
+//@ ensures [C17] time: k.hooks != nil ==> hookT("BeforeAllowedBidderUpdated") > old(Clock) && hookT("BeforeAllowedBidderUpdated") <= Clock
+//@ ensures Clock >= old(Clock) && (k.hooks == nil ==> HookOK == old(HookOK))
+//@ modifies HookN, HookT
+
+//@ func (Keeper).BeforeSellingCoinsAllocated
+//@ ensures [C17] no-hooks-no-call: k.hooks == nil ==> result == nil && hookN("BeforeSellingCoinsAllocated") == old(hookN("BeforeSellingCoinsAllocated"))
+//@ ensures [C17] called-exactly-once: k.hooks != nil ==> hookN("BeforeSellingCoinsAllocated") == old(hookN("BeforeSellingCoinsAllocated")) + 1 && hookArgsAre("BeforeSellingCoinsAllocated", auctionId, allocationMap, refundMap)
+//@ ensures [C17] veto-is-returned: k.hooks != nil ==> (result == nil) == HookOK
+//@ ensures [C17] time: k.hooks != nil ==> hookT("BeforeSellingCoinsAllocated") > old(Clock) && hookT("BeforeSellingCoinsAllocated") <= Clock
+//@ ensures Clock >= old(Clock) && (k.hooks == nil ==> HookOK == old(HookOK))
+//@ modifies HookN, HookT
+
+// CancelAuction (C12): only the auctioneer, only while standing by; refunds the whole selling escrow, zeroes the
+// published remainder, marks the auction cancelled; nothing else changes.
+//@ func (Keeper).CancelAuction
+//@ requires InvAuctions()
+//@ modifies Auction, Bal, HookN, HookT, SetT, XferN, XferT
+//@ ensures [C12,C08,C18] only-auctioneer-only-standby: err == nil ==> old(Auction[msg.AuctionId]).present && old(Auction[msg.AuctionId]).Status == AuctionStatusStandBy && old(Auction[msg.AuctionId]).Auctioneer == msg.Auctioneer
+//@ ensures [C12,C08] becomes-cancelled: err == nil ==> Auction[msg.AuctionId].present && Auction[msg.AuctionId].Status == AuctionStatusCancelled
+//@ ensures [C12,C01,C02] escrow-emptied-into-auctioneer: err == nil ==> let(a, old(Auction[msg.AuctionId]), let(sd, a.SellingCoin.Denom, bal(sellEsc(msg.AuctionId), sd) == 0 && bal(addrOf(a.Auctioneer), sd) == old(bal(addrOf(a.Auctioneer), sd)) + old(bal(sellEsc(msg.AuctionId), sd))))
+//@ ensures [C12,C02,C19] no-other-balance-moves: err == nil ==> let(a, old(Auction[msg.AuctionId]), forall(ad, Addr, forall(d, string, (ad != sellEsc(msg.AuctionId) && ad != addrOf(a.Auctioneer)) || d != a.SellingCoin.Denom ==> bal(ad, d) == old(bal(ad, d)))))
+//@ ensures [C12] remainder-zeroed: err == nil && old(Auction[msg.AuctionId]).Kind == KindFixed ==> Auction[msg.AuctionId].RemainingSellingCoin.Amount == 0
+//@ ensures [C12,C19] terms-unchanged: err == nil ==> sameExcept(Auction[msg.AuctionId], old(Auction[msg.AuctionId]), Status, RemainingSellingCoin)
+//@ ensures [C19,C12] other-auctions-untouched: forall(x, uint64, x != msg.AuctionId ==> Auction[x] == old(Auction[x]))
+//@ ensures [C17] hook-fired-before-the-record-is-written: err == nil && k.hooks != nil ==> hookN("BeforeAuctionCanceled") == old(hookN("BeforeAuctionCanceled")) + 1 && hookArgsAre("BeforeAuctionCanceled", msg.AuctionId, msg.Auctioneer) && hookT("BeforeAuctionCanceled") < setT("Auction")
+//@ ensures [C17] veto-aborts-before-the-write: !HookOK ==> err != nil && Auction == old(Auction)
+//@ ensures [C18,C12] accepted-when-preconditions-hold: old(Auction[msg.AuctionId]).present && old(Auction[msg.AuctionId]).Status == AuctionStatusStandBy && old(Auction[msg.AuctionId]).Auctioneer == msg.Auctioneer && ExternOK && HookOK ==> err == nil
+//@ ensures InvAuctions()
+
+// GetNextBidIdWithUpdate: per-auction bid ids count up from 1.
+//@ func (Keeper).GetNextBidIdWithUpdate
+//@ requires 0 <= BidSeq[auctionId] && BidSeq[auctionId] < 18446744073709551615
+//@ modifies BidSeq, SetT
+//@ ensures [C19] ids-increase-by-one: result1 == nil && result0 == old(BidSeq[auctionId]) + 1 && BidSeq[auctionId] == result0
+//@ ensures [C19] other-counters-untouched: forall(x, uint64, x != auctionId ==> BidSeq[x] == old(BidSeq[x]))
+
+// ValidateFixedPriceBid (C06/C05/C18): accepted only on a fixed price auction, at its price, in one of its two
+// denominations, by an allow-listed bidder, when the remainder covers the whole bid.
+//@ func (Keeper).ValidateFixedPriceBid
+//@ requires InvBidsWF()
+//@ requires auction.Kind != 0 && auction.Kind == Auction[auction.Id].Kind && auction.StartPrice > 0 && bid.Coin.Amount >= 0 && validAddr(bid.Bidder)
+//@ requires (auction.Kind == KindFixed) == (auction.Type == AuctionTypeFixedPrice)
+//@ requires auction.Kind == KindFixed ==> auction.RemainingSellingCoin.Denom == auction.SellingCoin.Denom
+//@ requires validDenom(auction.SellingCoin.Denom)
+//@ ensures [C06,C18] fixed-price-auction-only: result == nil ==> auction.Kind == KindFixed
+//@ ensures [C06,C18] one-of-the-two-denominations: result == nil ==> bid.Coin.Denom == auction.PayingCoinDenom || bid.Coin.Denom == auction.SellingCoin.Denom
+//@ ensures [C06,C18] at-the-auction-price: result == nil ==> bid.Price == auction.StartPrice
+//@ ensures [C06,C05] remainder-covers-the-bid: result == nil ==> sellOf(bid, auction.PayingCoinDenom) <= auction.RemainingSellingCoin.Amount
+//@ ensures [C10,C06] bidder-allow-listed: result == nil ==> AllowedBidder[bid.AuctionId][addrOf(bid.Bidder)].present
+//@ ensures [C05] within-the-cap-alone: result == nil ==> sellOf(bid, auction.PayingCoinDenom) <= AllowedBidder[bid.AuctionId][addrOf(bid.Bidder)].MaxBidAmount
+//@ ensures [C05,C06,C19] cumulative-cap-per-bidder-and-auction: result == nil ==> sumSellBy(bid.AuctionId, bid.Bidder, auction.PayingCoinDenom) + sellOf(bid, auction.PayingCoinDenom) <= AllowedBidder[bid.AuctionId][addrOf(bid.Bidder)].MaxBidAmount
+//@ ensures [C06,C18] accepted-when-conditions-hold: auction.Kind == KindFixed && (bid.Coin.Denom == auction.PayingCoinDenom || bid.Coin.Denom == auction.SellingCoin.Denom) && bid.Price == auction.StartPrice && sellOf(bid, auction.PayingCoinDenom) <= auction.RemainingSellingCoin.Amount && AllowedBidder[bid.AuctionId][addrOf(bid.Bidder)].present && sumSellBy(bid.AuctionId, bid.Bidder, auction.PayingCoinDenom) + sellOf(bid, auction.PayingCoinDenom) <= AllowedBidder[bid.AuctionId][addrOf(bid.Bidder)].MaxBidAmount ==> result == nil
+//@ requires auction.Id == bid.AuctionId
+//@ loop 0 invariant 0 <= idx && idx <= len(bids) && totalBidAmt >= 0
+//@ loop 0 invariant totalBidAmt == sum(t, 0, idx, ite(bids[t].AuctionId == auction.Id, sellOf(bids[t], auction.PayingCoinDenom), 0))
+
+//@ func (Keeper).GetBidsByBidder
+//@ ensures result1 == nil
+//@ ensures forall(j, int, 0 <= j && j < len(result0) ==> result0[j].Bidder == strOf(bidderAddr) && result0[j].Coin.Amount > 0 && result0[j].Price > 0)
+// The listing-sum fact below combines the Walk order schema with finite-sum arithmetic (sum over the filtered listing of
+// the whole Bid collection = sum over the dense ids of one auction); it is assumed, not proved (trusted base T-Sigma-listing).
+//@ trusted-ensures listing-sums-per-auction: forall(a, uint64, forall(pd, string, sum(t, 0, len(result0), ite(result0[t].AuctionId == a, sellOf(result0[t], pd), 0)) == sumSellBy(a, strOf(bidderAddr), pd)))
+//@ requires InvBidsWF()
+//@ walk 0 invariant forall(j, int, 0 <= j && j < len(bids) ==> bids[j].Bidder == strOf(bidderAddr) && bids[j].Coin.Amount > 0 && bids[j].Price > 0)
+
+// ValidateBatchWorthBid / ValidateBatchManyBid (C18, C10): batch auction, right denomination, allow-listed,
+// the bid alone within the cap.
+//@ func (Keeper).ValidateBatchWorthBid
+//@ requires auction.Kind != 0 && auction.StartPrice > 0 && bid.Coin.Amount >= 0 && bid.Price > 0 && validAddr(bid.Bidder)
+//@ requires (auction.Kind == KindBatch) == (auction.Type == AuctionTypeBatch)
+//@ ensures [C18] batch-auction-only: result == nil ==> auction.Kind == KindBatch
+//@ ensures [C18] paying-denomination: result == nil ==> bid.Coin.Denom == auction.PayingCoinDenom
+//@ ensures [C10,C18] bidder-allow-listed: result == nil ==> AllowedBidder[bid.AuctionId][addrOf(bid.Bidder)].present
+//@ ensures [C05,C18] within-the-cap-alone: result == nil ==> sellOf(bid, auction.PayingCoinDenom) <= AllowedBidder[bid.AuctionId][addrOf(bid.Bidder)].MaxBidAmount
+//@ ensures [C18] accepted-when-conditions-hold: auction.Kind == KindBatch && bid.Coin.Denom == auction.PayingCoinDenom && AllowedBidder[bid.AuctionId][addrOf(bid.Bidder)].present && sellOf(bid, auction.PayingCoinDenom) <= AllowedBidder[bid.AuctionId][addrOf(bid.Bidder)].MaxBidAmount ==> result == nil
+
+//@ func (Keeper).ValidateBatchManyBid
+//@ requires auction.Kind != 0 && auction.StartPrice > 0 && bid.Coin.Amount >= 0 && bid.Price > 0 && validAddr(bid.Bidder)
+//@ requires (auction.Kind == KindBatch) == (auction.Type == AuctionTypeBatch)
+//@ ensures [C18] batch-auction-only: result == nil ==> auction.Kind == KindBatch
+//@ ensures [C18] selling-denomination: result == nil ==> bid.Coin.Denom == auction.SellingCoin.Denom
+//@ ensures [C10,C18] bidder-allow-listed: result == nil ==> AllowedBidder[bid.AuctionId][addrOf(bid.Bidder)].present
+//@ ensures [C05,C18] within-the-cap-alone: result == nil ==> sellOf(bid, auction.PayingCoinDenom) <= AllowedBidder[bid.AuctionId][addrOf(bid.Bidder)].MaxBidAmount
+//@ ensures [C18] accepted-when-conditions-hold: auction.Kind == KindBatch && bid.Coin.Denom == auction.SellingCoin.Denom && AllowedBidder[bid.AuctionId][addrOf(bid.Bidder)].present && sellOf(bid, auction.PayingCoinDenom) <= AllowedBidder[bid.AuctionId][addrOf(bid.Bidder)].MaxBidAmount ==> result == nil
+
+// PlaceBid: the central entry point for C01/C02/C04/C06/C08/C10/C17/C18/C19.
+//@ func (Keeper).PlaceBid
+//@ requires Inv() && wfPlaceBid(msg) && !isEscrow(addrOf(msg.Bidder))
+//@ requires BidSeq[msg.AuctionId] < 18446744073709551615
+//@ modifies Auction, Bid, BidSeq, Bal, Pool, HookN, HookT, SetT, XferN, XferT
+//@ ensures [C08,C18] only-while-open: err == nil ==> old(Auction[msg.AuctionId]).present && old(Auction[msg.AuctionId]).Status == AuctionStatusStarted
+//@ ensures [C10,C18] only-allow-listed: err == nil ==> old(AllowedBidder[msg.AuctionId][addrOf(msg.Bidder)]).present
+//@ ensures [C18] price-floor: err == nil && old(Auction[msg.AuctionId]).Kind == KindBatch ==> msg.Price >= old(Auction[msg.AuctionId]).MinBidPrice
+//@ ensures [C18,C06] bid-type-matches-auction-type: err == nil ==> (old(Auction[msg.AuctionId]).Kind == KindFixed) == (msg.BidType == BidTypeFixedPrice)
+//@ ensures [C18,C06] fixed-price-terms: err == nil && msg.BidType == BidTypeFixedPrice ==> msg.Price == old(Auction[msg.AuctionId]).StartPrice && (msg.Coin.Denom == old(Auction[msg.AuctionId]).PayingCoinDenom || msg.Coin.Denom == old(Auction[msg.AuctionId]).SellingCoin.Denom)
+//@ ensures [C18] batch-denominations: err == nil ==> (msg.BidType == BidTypeBatchWorth ==> msg.Coin.Denom == old(Auction[msg.AuctionId]).PayingCoinDenom) && (msg.BidType == BidTypeBatchMany ==> msg.Coin.Denom == old(Auction[msg.AuctionId]).SellingCoin.Denom)
+//@ ensures [C19] bid-id-is-next: err == nil ==> result0.Id == old(BidSeq[msg.AuctionId]) + 1 && BidSeq[msg.AuctionId] == result0.Id
+//@ ensures [C19,C16] recorded-as-placed: err == nil ==> result0.AuctionId == msg.AuctionId && result0.Bidder == msg.Bidder && result0.Type == msg.BidType && result0.Price == msg.Price && result0.Coin == msg.Coin && result0.IsMatched == (msg.BidType == BidTypeFixedPrice) && Bid[msg.AuctionId][result0.Id].present && Bid[msg.AuctionId][result0.Id] == result0
+//@ ensures [C11,C19] existing-bids-untouched: forall(a, uint64, forall(i, uint64, err != nil || a != msg.AuctionId || i != old(BidSeq[msg.AuctionId]) + 1 ==> Bid[a][i] == old(Bid[a][i])))
+//@ ensures [C19] other-auctions-untouched: forall(x, uint64, x != msg.AuctionId ==> Auction[x] == old(Auction[x]) && BidSeq[x] == old(BidSeq[x]))
+//@ ensures [C19] terms-unchanged: old(Auction[msg.AuctionId]).present ==> Auction[msg.AuctionId].present && sameExcept(Auction[msg.AuctionId], old(Auction[msg.AuctionId]), RemainingSellingCoin)
+//@ ensures [C01,C02,C04] reservation-moves-into-the-paying-escrow: err == nil ==> let(pd, old(Auction[msg.AuctionId]).PayingCoinDenom, bal(payEsc(msg.AuctionId), pd) == old(bal(payEsc(msg.AuctionId), pd)) + payOf(result0, pd))
+//@ ensures [C02] bidder-pays-fee-plus-reservation: err == nil ==> let(pd, old(Auction[msg.AuctionId]).PayingCoinDenom, forall(d, string, bal(addrOf(msg.Bidder), d) == old(bal(addrOf(msg.Bidder), d)) - coins(Params.PlaceBidFee, d) - ite(d == pd, payOf(result0, pd), 0)))
+//@ ensures [C02] fee-goes-to-the-community-pool: err == nil ==> forall(d, string, pool(d) == old(pool(d)) + coins(Params.PlaceBidFee, d))
+//@ ensures [C02,C19] nobody-else-pays: err == nil ==> forall(ad, Addr, forall(d, string, ad != addrOf(msg.Bidder) && (ad != payEsc(msg.AuctionId) || d != old(Auction[msg.AuctionId]).PayingCoinDenom) ==> bal(ad, d) == old(bal(ad, d))))
+//@ ensures [C06,C05] remainder-decreases-by-the-bid: err == nil && msg.BidType == BidTypeFixedPrice ==> Auction[msg.AuctionId].RemainingSellingCoin.Amount == old(Auction[msg.AuctionId]).RemainingSellingCoin.Amount - sellOf(result0, old(Auction[msg.AuctionId]).PayingCoinDenom) && Auction[msg.AuctionId].RemainingSellingCoin.Amount >= 0
+//@ ensures [C06,C19] batch-auction-record-untouched: msg.BidType != BidTypeFixedPrice ==> Auction == old(Auction)
+//@ ensures [C17] hook-fired-before-the-bid-is-written: err == nil && k.hooks != nil ==> hookN("BeforeBidPlaced") == old(hookN("BeforeBidPlaced")) + 1 && hookArgsAre("BeforeBidPlaced", result0.AuctionId, result0.Id, result0.Bidder, result0.Type, result0.Price, result0.Coin) && hookT("BeforeBidPlaced") < setT("Bid")
+//@ ensures [C17] veto-aborts-before-the-write: !HookOK ==> err != nil && Bid == old(Bid)
+//@ ensures [C01,C06,C10,C19] preserves-the-invariant: err == nil ==> Inv()
